@@ -150,6 +150,30 @@ pub struct Case {
     /// to parse_spends (as after back-reference decoding or interning of a generator)
     #[serde(default)]
     pub share_nodes: bool,
+    /// this many ordinary spends without any condition (confirmed coins, distinct parents) come
+    /// before the spends above in the bundle, so that the interesting spends sit at positions
+    /// around 2^8 and 2^16. Ignored beyond the block limit when the flag set limits spends.
+    #[serde(default)]
+    pub pad_before: u32,
+}
+
+/// number of padding spends actually used (a bundle above MAX_SPENDS_PER_BLOCK is rejected for
+/// a reason that has nothing to do with time locks when LIMIT_SPENDS is set)
+fn effective_pad(case: &Case) -> usize {
+    let pad = case.pad_before as usize;
+    if flags_of(case).contains(ConsensusFlags::LIMIT_SPENDS) {
+        pad.min(6000usize.saturating_sub(case.spends.len()))
+    } else {
+        pad
+    }
+}
+
+fn pad_parent(i: usize) -> [u8; 32] {
+    seed32(b"padding-parent", i as u64)
+}
+
+fn pad_puzzle() -> [u8; 32] {
+    seed32(b"padding-puzzle", 0)
 }
 
 // ---------------------------------------------------------------- reference
@@ -486,6 +510,16 @@ fn build_tree(a: &mut Allocator, case: &Case, b: &Built) -> NodePtr {
     let n = case.spends.len();
     let mut spends = vec![];
     let mut shared: std::collections::BTreeMap<(u8, Vec<u8>, u8), NodePtr> = std::collections::BTreeMap::new();
+    let pad = effective_pad(case);
+    if pad > 0 {
+        let ph = a.new_atom(&pad_puzzle()).unwrap();
+        let am = a.new_atom(&[1]).unwrap();
+        let nil = a.nil();
+        for i in 0..pad {
+            let p = a.new_atom(&pad_parent(i)).unwrap();
+            spends.push(list(a, &[p, ph, am, nil]));
+        }
+    }
     for i in 0..n {
         let sp = &case.spends[i];
         let mut conds = vec![];
@@ -632,9 +666,9 @@ impl C03 {
             let tree = build_tree(&mut a, case, &ids);
             let flags = flags_of(case);
             let r = if case.mempool_visitor {
-                parse_spends::<MempoolVisitor>(&a, tree, 11_000_000_000, 0, flags, &Signature::default(), None, &TEST_CONSTANTS)
+                parse_spends::<MempoolVisitor>(&a, tree, u64::MAX / 2, 0, flags, &Signature::default(), None, &TEST_CONSTANTS)
             } else {
-                parse_spends::<EmptyVisitor>(&a, tree, 11_000_000_000, 0, flags, &Signature::default(), None, &TEST_CONSTANTS)
+                parse_spends::<EmptyVisitor>(&a, tree, u64::MAX / 2, 0, flags, &Signature::default(), None, &TEST_CONSTANTS)
             };
             match r {
                 Ok(conds) => Ok(OwnedSpendBundleConditions::from(&a, conds)),
@@ -687,6 +721,22 @@ impl C03 {
         let mut passed = 0u32;
         let mut failed = 0u32;
         let total = case.events.len() + 1;
+        // the coin store: the padding coins never change, the interesting ones are rewritten per state
+        let pad = effective_pad(case);
+        let mut records: HashMap<Bytes32, CoinRecord> = HashMap::with_capacity(n + pad);
+        if pad > 0 {
+            c.inc("probe.padded_bundles");
+            c.max("max.spends_in_bundle", (n + pad) as u64);
+            let ph = pad_puzzle();
+            for i in 0..pad {
+                let parent = pad_parent(i);
+                let coin = Coin::new(Bytes32::new(parent), Bytes32::new(ph), 1);
+                records.insert(
+                    Bytes32::new(sha(&[&parent, &ph, &[1u8]])),
+                    CoinRecord { coin, confirmed_block_index: 0, spent_block_index: 0, coinbase: false, timestamp: 0 },
+                );
+            }
+        }
         for step in 0..total {
             if step > 0 {
                 match &case.events[step - 1] {
@@ -740,7 +790,6 @@ impl C03 {
                 Err(_) => Ok(false),
                 Ok(conds) => {
                     // the coin store as the node sees it in this chain state
-                    let mut records: HashMap<Bytes32, CoinRecord> = HashMap::with_capacity(n);
                     for i in 0..n {
                         let (bh, bt) = if reference.ephemeral[i] { (st.h.saturating_add(1), st.t) } else { births[i] };
                         let coin = Coin::new(Bytes32::new(ids.parents[i]), Bytes32::new(ids.puzzles[i]), case.spends[i].amount);
@@ -928,6 +977,156 @@ impl Engine for C03 {
     }
 
     fn generate(&self, rng: &mut Rng, tier: Tier) -> Case {
+        // rarely: the interesting spends sit right at / across position 2^8 or 2^16 of a long
+        // bundle (only with flag sets that do not limit the number of spends; in half of these
+        // runs the bundle is re-drawn until an ephemeral coin carries a relative or birth
+        // assertion, the one rule that is stated per spend *position*)
+        let pad_at: u32 = if rng.chance(1, 2_000) {
+            256
+        } else if rng.chance(1, 30_000) {
+            65_536
+        } else {
+            0
+        };
+        if pad_at == 0 {
+            return self.generate_inner(rng, tier);
+        }
+        let want_ephemeral_lock = rng.chance(3, 4);
+        let mut case = self.generate_inner(rng, tier);
+        for _ in 0..300 {
+            let n = case.spends.len();
+            let has = case.spends.iter().enumerate().any(|(i, sp)| {
+                matches!(sp.parent_spend, Some(j) if j < n && j != i) && sp.conds.iter().any(|c| c.kind.is_relative_or_birth())
+            });
+            if !flags_of(&case).contains(ConsensusFlags::LIMIT_SPENDS) && (!want_ephemeral_lock || has) {
+                break;
+            }
+            case = self.generate_inner(rng, tier);
+        }
+        if !flags_of(&case).contains(ConsensusFlags::LIMIT_SPENDS) {
+            let n = case.spends.len() as u64;
+            case.pad_before = pad_at - rng.below(n + 1) as u32 + u32::from(rng.chance(1, 4));
+            if case.pad_before > 10_000 {
+                // every state re-checks 65 000 padding coins: keep such runs short
+                case.events.truncate(12);
+            }
+        }
+        case
+    }
+
+    fn execute(&self, case: &Case, _ctx: &WorkerCtx, counters: &mut Counters) -> RunOutput<Case> {
+        let (violation, digest, nontrivial) = self.exec(case, counters);
+        RunOutput { violation, digest, nontrivial, resolved: None }
+    }
+
+    fn shrink(&self, case: &Case) -> Vec<Case> {
+        let mut out = vec![];
+        // fewer events
+        for ev in removal_candidates(&case.events) {
+            let mut c = case.clone();
+            c.events = ev;
+            out.push(c);
+        }
+        // fewer spends (fix up parent links)
+        if case.spends.len() > 1 {
+            for i in 0..case.spends.len() {
+                let mut c = case.clone();
+                c.spends.remove(i);
+                if i < c.births.len() {
+                    c.births.remove(i);
+                }
+                for sp in c.spends.iter_mut() {
+                    sp.parent_spend = match sp.parent_spend {
+                        Some(j) if j == i => None,
+                        Some(j) if j > i => Some(j - 1),
+                        x => x,
+                    };
+                }
+                c.events = c
+                    .events
+                    .iter()
+                    .filter_map(|e| match e {
+                        Ev::Birth { spend, .. } if *spend == i => None,
+                        Ev::Birth { spend, h, t } if *spend > i => Some(Ev::Birth { spend: spend - 1, h: *h, t: *t }),
+                        e => Some(e.clone()),
+                    })
+                    .collect();
+                out.push(c);
+            }
+        }
+        // fewer conditions
+        for i in 0..case.spends.len() {
+            for j in 0..case.spends[i].conds.len() {
+                let mut c = case.clone();
+                c.spends[i].conds.remove(j);
+                out.push(c);
+            }
+            if !case.spends[i].fillers.is_empty() {
+                let mut c = case.clone();
+                c.spends[i].fillers.clear();
+                out.push(c);
+            }
+            for j in 0..case.spends[i].conds.len() {
+                if case.spends[i].conds[j].extra_args > 0 {
+                    let mut c = case.clone();
+                    c.spends[i].conds[j].extra_args = 0;
+                    out.push(c);
+                }
+            }
+            if case.spends[i].remarks > 0 {
+                let mut c = case.clone();
+                c.spends[i].remarks = 0;
+                out.push(c);
+            }
+            if case.spends[i].parent_spend.is_some() {
+                let mut c = case.clone();
+                c.spends[i].parent_spend = None;
+                out.push(c);
+            }
+        }
+        if case.flagset != 0 {
+            let mut c = case.clone();
+            c.flagset = 0;
+            out.push(c);
+        }
+        if case.mempool_visitor {
+            let mut c = case.clone();
+            c.mempool_visitor = false;
+            out.push(c);
+        }
+        if case.share_nodes {
+            let mut c = case.clone();
+            c.share_nodes = false;
+            out.push(c);
+        }
+        if case.pad_before > 0 {
+            for p in [0, case.pad_before / 2, case.pad_before - 1] {
+                let mut c = case.clone();
+                c.pad_before = p;
+                out.push(c);
+            }
+        }
+        out
+    }
+
+    fn extra_coverage(&self, c: &Counters) -> Value {
+        let g = |k: &str| c.map.get(k).copied().unwrap_or(0);
+        json!({
+            "simulated_time_span": {
+                "heights": format!("0 ..= {}", g("span.max_height")),
+                "timestamps_seconds": format!("0 ..= {}", g("span.max_timestamp")),
+                "note": "the clock jumps between lock thresholds; the span is the range of previous-transaction-block heights and timestamps visited"
+            },
+            "chain_states_visited": g("steps"),
+            "states_expected_pass": g("states.expected_pass"),
+            "states_expected_fail": g("states.expected_fail"),
+            "distinct_interleavings": "n/a (single mempool, no concurrency; the searched space is bundles x clock/reorg event sequences)",
+        })
+    }
+}
+
+impl C03 {
+    fn generate_inner(&self, rng: &mut Rng, tier: Tier) -> Case {
         let deep = tier == Tier::Thorough && rng.chance(1, 5);
         let nspends = if deep { rng.range(3, 5) } else { 0 };
         let nspends = if nspends > 0 { nspends as usize } else if rng.chance(1, 150) { rng.range(6, 20) as usize } else { match rng.below(10) {
@@ -1044,7 +1243,9 @@ impl Engine for C03 {
             births: vec![],
             events: vec![],
             share_nodes: rng.chance(1, 3),
+            pad_before: 0,
         };
+
         let reference = Reference::new(&case);
         // coin births relative to the asserted values
         let pick_birth_h = |rng: &mut Rng, anchors: &[u64]| -> u32 {
@@ -1152,108 +1353,5 @@ impl Engine for C03 {
         }
         case.events = events;
         case
-    }
-
-    fn execute(&self, case: &Case, _ctx: &WorkerCtx, counters: &mut Counters) -> RunOutput<Case> {
-        let (violation, digest, nontrivial) = self.exec(case, counters);
-        RunOutput { violation, digest, nontrivial, resolved: None }
-    }
-
-    fn shrink(&self, case: &Case) -> Vec<Case> {
-        let mut out = vec![];
-        // fewer events
-        for ev in removal_candidates(&case.events) {
-            let mut c = case.clone();
-            c.events = ev;
-            out.push(c);
-        }
-        // fewer spends (fix up parent links)
-        if case.spends.len() > 1 {
-            for i in 0..case.spends.len() {
-                let mut c = case.clone();
-                c.spends.remove(i);
-                if i < c.births.len() {
-                    c.births.remove(i);
-                }
-                for sp in c.spends.iter_mut() {
-                    sp.parent_spend = match sp.parent_spend {
-                        Some(j) if j == i => None,
-                        Some(j) if j > i => Some(j - 1),
-                        x => x,
-                    };
-                }
-                c.events = c
-                    .events
-                    .iter()
-                    .filter_map(|e| match e {
-                        Ev::Birth { spend, .. } if *spend == i => None,
-                        Ev::Birth { spend, h, t } if *spend > i => Some(Ev::Birth { spend: spend - 1, h: *h, t: *t }),
-                        e => Some(e.clone()),
-                    })
-                    .collect();
-                out.push(c);
-            }
-        }
-        // fewer conditions
-        for i in 0..case.spends.len() {
-            for j in 0..case.spends[i].conds.len() {
-                let mut c = case.clone();
-                c.spends[i].conds.remove(j);
-                out.push(c);
-            }
-            if !case.spends[i].fillers.is_empty() {
-                let mut c = case.clone();
-                c.spends[i].fillers.clear();
-                out.push(c);
-            }
-            for j in 0..case.spends[i].conds.len() {
-                if case.spends[i].conds[j].extra_args > 0 {
-                    let mut c = case.clone();
-                    c.spends[i].conds[j].extra_args = 0;
-                    out.push(c);
-                }
-            }
-            if case.spends[i].remarks > 0 {
-                let mut c = case.clone();
-                c.spends[i].remarks = 0;
-                out.push(c);
-            }
-            if case.spends[i].parent_spend.is_some() {
-                let mut c = case.clone();
-                c.spends[i].parent_spend = None;
-                out.push(c);
-            }
-        }
-        if case.flagset != 0 {
-            let mut c = case.clone();
-            c.flagset = 0;
-            out.push(c);
-        }
-        if case.mempool_visitor {
-            let mut c = case.clone();
-            c.mempool_visitor = false;
-            out.push(c);
-        }
-        if case.share_nodes {
-            let mut c = case.clone();
-            c.share_nodes = false;
-            out.push(c);
-        }
-        out
-    }
-
-    fn extra_coverage(&self, c: &Counters) -> Value {
-        let g = |k: &str| c.map.get(k).copied().unwrap_or(0);
-        json!({
-            "simulated_time_span": {
-                "heights": format!("0 ..= {}", g("span.max_height")),
-                "timestamps_seconds": format!("0 ..= {}", g("span.max_timestamp")),
-                "note": "the clock jumps between lock thresholds; the span is the range of previous-transaction-block heights and timestamps visited"
-            },
-            "chain_states_visited": g("steps"),
-            "states_expected_pass": g("states.expected_pass"),
-            "states_expected_fail": g("states.expected_fail"),
-            "distinct_interleavings": "n/a (single mempool, no concurrency; the searched space is bundles x clock/reorg event sequences)",
-        })
     }
 }
